@@ -200,7 +200,19 @@ Definition spec_C04_P (e : rcexpr) : list (string * form) :=
   | CInterrupted r ivs =>
       flat_map (fun '(w, b) =>
         match ti_kind (be_task b) with
-        | KVar _ _ _ => []
+        | KVar mn mx _ =>
+            (* a task of variable duration neither starts nor ends inside an interruption, and is lengthened by the
+               interruptions it overlaps (windows lo < hi; busy intervals that do not end before they start) *)
+            if forallb (fun '(lo, hi) => lo <? hi) ivs then
+              let ov := TAdd (map (fun '(lo, hi) =>
+                          TIte (FAnd [FLt (bsv w b) (TC hi); FGt (bev w b) (TC lo)]) (TC (hi - lo)) (TC 0)) ivs) in
+              let proper := FLe (bsv w b) (bev w b) in
+              flat_map (fun '(lo, hi) =>
+                 [("interrupted_var_ends", FAnd [FOr [FLe (bsv w b) (TC lo); FLe (TC hi) (bsv w b)];
+                                                 FOr [FLe (bev w b) (TC lo); FLe (TC hi) (bev w b)]])]) ivs
+              ++ [("interrupted_var_min", FImp proper (FLe (TAdd [TC mn; ov]) (D_ (be_task b))))]
+              ++ (match mx with Some m => [("interrupted_var_max", FImp proper (FLe (D_ (be_task b)) (TAdd [TC m; ov])))] | None => [] end)
+            else []
         | _ => map (fun '(lo, hi) => ("interrupted_fixed", FOr [FLe (TC hi) (bsv w b); FLe (bev w b) (TC lo)])) ivs
         end) (all_busy r)
   | CPeriodicUnavailable r ivs period start offset end_ =>
@@ -354,18 +366,6 @@ Definition spec_C04_late_c (st : pstate) (e : rcexpr) : list (string * form) :=
           ("workload_late", cmp_sum k (TAdd (map (fun '(w, b) => t_overlap (bsv w b) (bev w b) lo hi) (all_busy r'))) n)) ivs
       | _, _ => [] end
   | CInterrupted r ivs =>
-      flat_map (fun '(w, b) =>
-        match ti_kind (be_task b) with
-        | KVar mn mx _ =>
-            let ov := TAdd (map (fun '(lo, hi) =>
-                        TIte (FAnd [FLt (bsv w b) (TC hi); FGt (bev w b) (TC lo)]) (TC (hi - lo)) (TC 0)) ivs) in
-            flat_map (fun '(lo, hi) =>
-               [("interrupted_var_ends", FAnd [FOr [FLe (bsv w b) (TC lo); FLe (TC hi) (bsv w b)];
-                                               FOr [FLe (bev w b) (TC lo); FLe (TC hi) (bev w b)]])]) ivs
-            ++ [("interrupted_var_min", FLe (TAdd [TC mn; ov]) (D_ (be_task b)))]
-            ++ (match mx with Some m => [("interrupted_var_max", FLe (D_ (be_task b)) (TAdd [TC m; ov]))] | None => [] end)
-        | _ => []
-        end) (all_busy r) ++
       flat_map (fun '(w, b) =>
         match ti_kind (be_task b) with
         | KVar _ _ _ => []
